@@ -43,12 +43,12 @@ func enumAlphabet(g enumGeom) []Op {
 		{Kind: "append", Entries: []kit.EntrySpec{small, odd, mid}, Start: g.StartB},
 		{Kind: "bad", Entries: []kit.EntrySpec{small, mid}, Bad: "gap", Start: g.StartA},
 		{Kind: "bad", Entries: []kit.EntrySpec{small, mid}, Bad: "nonconsec", Start: g.StartB},
-		{Kind: "del", Min: p("first", 0), Max: p("first", 0)},  // one-entry prefix
-		{Kind: "del", Min: p("zero", 0), Max: p("first", 2)},   // three-entry prefix from 0 (crosses segments when small)
-		{Kind: "del", Min: p("first", 0), Max: p("last", 0)},   // everything
-		{Kind: "del", Min: p("last", 0), Max: p("last", 0)},    // one-entry suffix
-		{Kind: "del", Min: p("last", -2), Max: p("last", 1)},   // three-entry suffix, max beyond last
-		{Kind: "del", Min: p("first", 1), Max: p("first", 1)},  // middle when >= 3 entries (must be refused)
+		{Kind: "del", Min: p("first", 0), Max: p("first", 0)}, // one-entry prefix
+		{Kind: "del", Min: p("zero", 0), Max: p("first", 2)},  // three-entry prefix from 0 (crosses segments when small)
+		{Kind: "del", Min: p("first", 0), Max: p("last", 0)},  // everything
+		{Kind: "del", Min: p("last", 0), Max: p("last", 0)},   // one-entry suffix
+		{Kind: "del", Min: p("last", -2), Max: p("last", 1)},  // three-entry suffix, max beyond last
+		{Kind: "del", Min: p("first", 1), Max: p("first", 1)}, // middle when >= 3 entries (must be refused)
 		{Kind: "reopen"},
 	}
 }
